@@ -1,6 +1,7 @@
 """C11/C12 native harness (bounded): real runs over a generated project under privacy rule lists; the written files are
 scanned for dangling links (C11) and for traces of hidden objects / unmarked private ones (C12)."""
 from __future__ import annotations
+import re
 import urllib.parse
 from replay import site
 
@@ -36,7 +37,7 @@ def _cases(tier, seed):
         yield {'privacy': k, 'project': 'B'}
     yield {'privacy': 0, 'project': 'two_roots', 'rules': ['HIDDEN:beta']}
     yield {'privacy': 0, 'project': 'two_roots', 'rules': ['HIDDEN:alpha.A', 'PRIVATE:beta']}
-    for k in ((1, 3) if tier == 'quick' else range(4)):
+    for k in ((1, 3, 4) if tier == 'quick' else range(5)):
         yield {'privacy': 0, 'project': 'kitchen', 'options': k}
     yield {'privacy': 0, 'project': 'two_roots', 'rules': ['PRIVATE:gamma._inner.helper', 'PRIVATE:beta.B.m', 'PUBLIC:gamma._inner']}
     yield {'privacy': 0, 'project': 'two_roots', 'rules': ['HIDDEN:gamma.widgets.Sealed', 'PRIVATE:gamma.widgets.P*', 'HIDDEN:gamma._inner']}
@@ -103,6 +104,30 @@ def check_site(case, which):
                 walk(c)
         for r in system.rootobjects:
             walk(r)
+        if which in ('C11', 'both') and '--html-subject' not in argv:
+            # every visible member is listed on the page of its (visible) parent: a row of one of its member tables leads to it
+            for n, o in objs.items():
+                p_ = o.parent
+                if p_ is None or not _vis(o) or _is_displaced(n) or o.kind is None:
+                    continue
+                ppage = urllib.parse.unquote(p_.url).partition('#')[0]
+                info_ = idx['pages'].get(ppage)
+                if info_ is None or '#' in urllib.parse.unquote(p_.url):
+                    continue
+                want_ = urllib.parse.unquote(o.url)
+                rows = [e for e in info_['entries'] if e['tag'] == 'tr' and e.get('hrefs')]
+                hit = False
+                for e in rows:
+                    for h in e['hrefs']:
+                        r = site.resolve(ppage, h)
+                        if r is not None and r[0] + ('#' + r[1] if r[1] else '') == want_:
+                            hit = True
+                            break
+                    if hit:
+                        break
+                if not hit:
+                    fails.append({'observed': f'{ppage}: no member table lists {n} ({want_})', 'required': 'documented under its parent (a row of the member tables)',
+                                  'class': 'unlisted-member:' + ppage})
         if which in ('C11', 'both'):
             for page, info in idx['pages'].items():
                 for href in info['links']:
@@ -118,7 +143,9 @@ def check_site(case, which):
                         fails.append({'observed': f'{page}: link {href!r} -> no anchor {frag!r} in {target}', 'required': 'the anchor exists',
                                       'class': 'dead-anchor:' + target + '#' + frag + '@' + page, 'href': href, 'page': page, 'target_name': urllib.parse.unquote(target)[:-5] + '.' + frag,
                                       'displaced_duplicate': _is_displaced(urllib.parse.unquote(target)[:-5] + '.' + frag),
-                                      'summary_clash': target if target in clash_roots else None})
+                                      'summary_clash': target if target in clash_roots else None,
+                                      # the back-link from a section title to its entry in a sidebar table of contents, with sidebars expanded
+                                      'toc_backlink': bool(re.fullmatch(r'rst-toc-entry-\d+', frag)) and target == page and '--sidebar-expand-depth' in argv})
             from pydoctor import model
             summary_pages = {'classIndex.html', 'nameIndex.html', 'moduleIndex.html', 'undoccedSummary.html', 'all-documents.html'}
             if len(system.rootobjects) != 1:
